@@ -93,6 +93,7 @@ Inductive getter_body :=
 Record ngetter := { gt_method : name; gt_field : name; gt_result : name; gt_body : getter_body }.
 
 Record wiring := {
+  w_name : name;                        (* the message type's Go name *)
   w_fields : list (name * name);        (* struct declaration: field name, type name, in order *)
   w_types : list (name * name);         (* type T U declarations of the file *)
   w_msg_index : Z;                      (* Message: d.Messages[mi] of the md literal *)
@@ -588,3 +589,68 @@ Definition wiring_getter_phys (m : message) (w : wiring) (g : ngetter) (st : sta
 (** C10 part: declarations, Reset(), CopyFrom()/MarshalFrame() shapes (over the C03 part), setters, getters *)
 Definition wiring_ok_c10 (mi : nat) (m : message) (w : wiring) : bool :=
   decls_ok mi m w && reset_wiring_ok m w && w_copy w && setters_wiring_ok m w && getters_wiring_ok m w.
+
+(** ---- the whole generated package: one wiring per message type (in source order), the `nd` literal
+    (<Node>: d.Nodes[ni]) and the dispatcher's cases *)
+Record package := {
+  p_wirings : list wiring;
+  p_nodes : list (name * Z);
+  p_dispatch : list (option name) }.   (* MessagesDescriptor.UnmarshalFrame: case md.<Msg>.ID (Some Msg) ... default (None) *)
+
+(** the wiring of the message type named [n]: there must be EXACTLY one *)
+Definition find_wiring (n : name) (ws : list wiring) : option wiring :=
+  match filter (fun w => name_eqb (w_name w) n) ws with [w] => Some w | _ => None end.
+Fixpoint messages_ok (ok : nat -> message -> wiring -> bool) (ws : list wiring) (ms : list message) (k : nat) : bool :=
+  match ms with
+  | [] => true
+  | m :: tl => match find_wiring (msg_name m) ws with Some w => ok k m w | None => false end && messages_ok ok ws tl (S k)
+  end.
+Fixpoint nodes_ok (ns : list node) (k : Z) (l : list (name * Z)) : bool :=
+  match ns, l with
+  | [], [] => true
+  | n :: ns', (nm, i) :: l' => name_eqb nm (node_name n) && (i =? k) && nodes_ok ns' (k + 1) l'
+  | _, _ => false
+  end.
+(** no message type without a message of the database *)
+Definition no_extra_types (db : database) (ws : list wiring) : bool :=
+  forallb (fun w => existsb (fun m => name_eqb (w_name w) (msg_name m)) (db_messages db)) ws.
+Definition package_wiring_ok_c03 (db : database) (p : package) : bool :=
+  messages_ok wiring_ok_c03 (p_wirings p) (db_messages db) 0 && no_extra_types db (p_wirings p) &&
+  nodes_ok (db_nodes db) 0 (p_nodes p).
+Definition package_wiring_ok_c10 (db : database) (p : package) : bool :=
+  messages_ok wiring_ok_c10 (p_wirings p) (db_messages db) 0 && no_extra_types db (p_wirings p).
+Definition package_wiring_ok (db : database) (p : package) : bool :=
+  package_wiring_ok_c03 db p && package_wiring_ok_c10 db p.
+
+(** ---- the dispatcher MessagesDescriptor.UnmarshalFrame:
+      switch f.ID { case md.<Msg>.ID: var msg <Msg>; if err := msg.UnmarshalFrame(f); err != nil { return nil, ... }; return &msg, nil
+                    ... default: return nil, ... }
+    first case whose value equals f.ID; md.<Msg> is the md literal entry of that message type (Message: d.Messages[mi]);
+    `var msg <Msg>` is the zero value of the struct. [Some None] = the dispatcher returns an error without a message. *)
+Definition zero_state (w : wiring) : state := map (fun _ => 0) (w_fields w).
+Fixpoint run_dispatch (db : database) (ws : list wiring) (f : frame) (cases : list (option name))
+  : option (option (message * (reject + state))) :=
+  match cases with
+  | [] => None                       (* no default clause: outside the fragment *)
+  | None :: _ => Some None
+  | Some n :: tl =>
+      match find_wiring n ws with
+      | Some w =>
+          match nth_error (db_messages db) (Z.to_nat (w_msg_index w)) with
+          | Some m =>
+              if msg_id m =? fr_id f then
+                match wiring_unmarshal m w f (zero_state w) with
+                | Some (inl (r, _)) => Some (Some (m, inl r))
+                | Some (inr st) => Some (Some (m, inr st))
+                | None => None
+                end
+              else run_dispatch db ws f tl
+          | None => None
+          end
+      | None => None
+      end
+  end.
+Definition wiring_dispatch (db : database) (p : package) (f : frame) := run_dispatch db (p_wirings p) f (p_dispatch p).
+(** one case per message of the database, in database order, then the default *)
+Definition dispatch_ok (db : database) (p : package) : bool :=
+  list_eqb (opt_eqb name_eqb) (p_dispatch p) (map (fun m => Some (msg_name m)) (db_messages db) ++ [None]).
